@@ -155,6 +155,8 @@ double RandomTools::incompleteGamma (double x, double alpha, double ln_gamma_alp
     return -1;
   if (x == 0)
     return 0;
+  if (std::isinf(x))
+    return 1; // the whole mass lies below +infinity (p * log(x) - x is not a number there, and the continued fraction never converges)
 
   factor = exp(p * log(x) - x - g);
   if (x > 1 && x >= p)
